@@ -166,6 +166,25 @@ func c09Workloads(perProbe int) []c09Workload {
 			}
 			return out
 		}},
+		{"truncation-fixlen", func(e *simEnv, p *refmatch.Probe, r *rand.Rand) [][]byte {
+			// every prefix length with the outer length field (IPv4 total length + header checksum / IPv6 payload
+			// length) rewritten to match: short but self-consistent packets, e.g. an echo reply or a quote cut
+			// inside the identifying bytes
+			var out [][]byte
+			for _, s := range seedFrames(e, p) {
+				for n := 1; n < len(s); n++ {
+					m := append([]byte(nil), s[:n]...)
+					if m[0]>>4 == 4 && n >= 20 {
+						binary.BigEndian.PutUint16(m[2:], uint16(n))
+						gen.FixIPv4Checksum(m, "fix")
+					} else if m[0]>>4 == 6 && n >= 40 {
+						binary.BigEndian.PutUint16(m[4:], uint16(n-40))
+					}
+					out = append(out, m)
+				}
+			}
+			return out
+		}},
 		{"mutation", func(e *simEnv, p *refmatch.Probe, r *rand.Rand) [][]byte {
 			seeds := seedFrames(e, p)
 			var out [][]byte
@@ -252,7 +271,7 @@ func checkC09() fw.Check {
 				for _, wl := range c09Workloads(perProbe) {
 					for _, w := range wins {
 						nch := chunks
-						if wl.name == "truncation" || wl.name == "near-miss" {
+						if wl.name == "truncation" || wl.name == "truncation-fixlen" || wl.name == "near-miss" {
 							nch = 1
 						}
 						for ch := 0; ch < nch; ch++ {
@@ -303,6 +322,9 @@ func runC09Case(c *fw.Ctx, id string, v refmatch.Variant, wl c09Workload, w wind
 						for i := 0; i < 20; i++ {
 							sa := e.peer.SynAckBytes(drive.Local4, uint16(1024+r.Intn(60000)))
 							mm, _ := mutate(r, sa)
+							if len(mm) == 0 {
+								continue // a zero-length read is a capture-layer failure class (C10), not a packet
+							}
 							e.inject(mm, "noise:handshake", nil, 0)
 							injected++
 						}
